@@ -184,6 +184,10 @@ class Ctx:
         cases = list(cases)
         t = time.time()
         agg = Res()
+        if os.environ.get("VERIF_FAILFAST") and self.res.viol:
+            # scratch runs against seeded changes only (tools/seed_*.sh): a violation has been found, later phases are skipped
+            self.phases[phase] = {"cases": len(cases), "skipped": "VERIF_FAILFAST"}
+            return agg
         if parallel and env.NPROC > 1 and len(cases) > 1:
             ctx = mp.get_context("fork")
             # one fresh forked process per chunk of cases: library state (module/class-level caches) cannot leak from one case into another
